@@ -2,6 +2,8 @@
 
 package cmds
 
+import "reflect"
+
 // Add-only exports for the verification harness (family bld: C18, C32, C33, C43).
 
 // VerifBldCrc16 exposes crc16.
@@ -23,4 +25,23 @@ func VerifBldTags() map[string]uint16 {
 		"mtGetTag": mtGetTag, "scrRoTag": scrRoTag, "unsubTag": unsubTag, "pipeTag": pipeTag,
 		"retryableTag": retryableTag, "staticTTLTag": staticTTLTag, "InitSlot": InitSlot, "NoSlot": NoSlot,
 	}
+}
+
+// VerifBldPeek reads the fields of any builder value (every generated builder type has the underlying type Incomplete).
+func VerifBldPeek(v any) (s []string, cf int16, ks uint16, ok bool) {
+	rv := reflect.ValueOf(v)
+	t := reflect.TypeOf(Incomplete{})
+	if !rv.IsValid() || !rv.Type().ConvertibleTo(t) {
+		return nil, 0, 0, false
+	}
+	inc := rv.Convert(t).Interface().(Incomplete)
+	if inc.cs == nil {
+		return nil, inc.cf, inc.ks, true
+	}
+	return append([]string(nil), inc.cs.s...), inc.cf, inc.ks, true
+}
+
+// VerifBldWithCF creates a Completed with an arbitrary flag word (to observe the Is*() predicates).
+func VerifBldWithCF(ss []string, cf uint16) Completed {
+	return Completed{cs: newCommandSlice(ss), cf: cf}
 }
